@@ -232,7 +232,7 @@ func ttmlGenModel(r *fw.Rand, forWriter bool) ttmlModel {
 		m.Lang = fw.Pick(r, []string{"zh", "en", "fr", "ja", "no"})
 	}
 	if !forWriter {
-		m.FrameRate = fw.Pick(r, []int64{0, 24, 25, 30, 50, 60})
+		m.FrameRate = fw.Pick(r, []int64{0, 24, 25, 30, 50, 60, 120, 240, 1000})
 		m.TickRate = fw.Pick(r, []int64{0, 1, 1000, 90000, 10000000})
 	}
 	ns := r.Intn(6)
